@@ -13,7 +13,7 @@ def generate_source_code(docstring, parsed):
     # Convert the parse tree into a list of parsing expressions.
     nodes = parser.transform(parsed.body, _create_parsing_expression)
 
-    out = CodeBuilder()
+    out = _CodeBuilder()
     out.add_docstring(docstring)
 
     flags = _Flags(uses_context=parsed.name is not None)
@@ -268,6 +268,15 @@ def generate_source_code(docstring, parsed):
             ))
 
     return out
+
+
+class _CodeBuilder(CodeBuilder):
+    def _reserve_name(self, base_name):
+        # The names in a grammar cannot start with an underscore, so generated
+        # variables that do can never collide with a field, parameter or rule.
+        if not base_name.startswith('_'):
+            base_name = '_' + base_name
+        return CodeBuilder._reserve_name(self, base_name)
 
 
 class _Flags:
@@ -550,12 +559,13 @@ class ParsedObject:
     def _asdict(self):
         return {k: getattr(self, k) for k in self._fields}
 
-    def _replace(self, **kw):
-        for field in self._fields:
+    def _replace(_self, **kw):
+        # (A field may be called "self".)
+        for field in _self._fields:
             if field not in kw:
-                kw[field] = getattr(self, field)
-        result = self.__class__(**kw)
-        result._metadata.update(self._metadata)
+                kw[field] = getattr(_self, field)
+        result = _self.__class__(**kw)
+        result._metadata.update(_self._metadata)
         return result
 
 
